@@ -38,18 +38,18 @@ static bool matches(unsigned type, const Nm& decl, const Nm& c, bool dtd) {
 }
 extern "C" void harness_dfa(void) {
   VxMM mm;
-  alignas(8) char qs[N + E][sizeof(QName)]; alignas(8) char cms[sizeof(DFAContentModel)];
+  VxRaw<QName> qs[N + E]; VxRaw<DFAContentModel> cms;
   unsigned tt[S][E]; unsigned* rows[S]; bool fin[S]; Nm decl[E]; QName* emap[E]; ContentSpecNode::NodeTypes ety[E];
   bool dtd = nondet_bool(), mixed = nondet_bool(), emptyOk = nondet_bool();
   for (int s = 0; s < S; s++) { rows[s] = tt[s]; fin[s] = nondet_bool(); for (int e = 0; e < E; e++) { tt[s][e] = nondet_u32(); VX_ASSUME(tt[s][e] < S || tt[s][e] == XMLContentModel::gInvalidTrans); } }
-  for (int e = 0; e < E; e++) { symname(decl[e]); emap[e] = mkq(qs[N + e], decl[e]); unsigned t = nondet_u8();
+  for (int e = 0; e < E; e++) { symname(decl[e]); emap[e] = mkq(&qs[N + e].obj, decl[e]); unsigned t = nondet_u8();
     VX_ASSUME(t == ContentSpecNode::Leaf || (!dtd && (t == ContentSpecNode::Any_NS || t == ContentSpecNode::Any_Other))); ety[e] = (ContentSpecNode::NodeTypes)t; }
-  DFAContentModel* cm = (DFAContentModel*)cms; *(void***)cm = &_ZTVN11xercesc_4_015DFAContentModelE[2];
+  DFAContentModel* cm = &cms.obj; *(void***)cm = &_ZTVN11xercesc_4_015DFAContentModelE[2];
   cm->fElemMap = emap; cm->fElemMapType = ety; cm->fElemMapSize = E; cm->fEmptyOk = emptyOk; cm->fFinalStateFlags = fin; cm->fTransTable = rows; cm->fTransTableSize = S;
   cm->fCountingStates = 0; cm->fDTD = dtd; cm->fIsMixed = mixed; cm->fMemoryManager = &mm;
   XMLSize_t n = nondet_u64(); VX_ASSUME(n <= N);
   Nm c[N]; QName* kids[N]; bool pcd[N];
-  for (int i = 0; i < N; i++) { symname(c[i]); pcd[i] = mixed && nondet_bool(); if (pcd[i]) c[i].uri = XMLElementDecl::fgPCDataElemId; kids[i] = mkq(qs[i], c[i]);
+  for (int i = 0; i < N; i++) { symname(c[i]); pcd[i] = mixed && nondet_bool(); if (pcd[i]) c[i].uri = XMLElementDecl::fgPCDataElemId; kids[i] = mkq(&qs[i].obj, c[i]);
     if (!pcd[i]) VX_ASSUME(!(matches(ety[0], decl[0], c[i], dtd) && matches(ety[1], decl[1], c[i], dtd))); }     // unique particle attribution
   XMLSize_t fail = 99; bool ok = cm->DFAContentModel::validateContent(kids, n, 0, &fail, &mm);
   // reference run
